@@ -148,6 +148,7 @@ void World::exec_op(const Op &op) {
 		if (t && t->open && t->in_epoll) { t->spurious_in = true; g_kernel.mark_pending(*t); probe("fault:spurious_readiness:" + what); }
 		return;
 	}
+	if (k == "epollintr") { epoll_intr += (int)op.a.geti("n", 1); return; }
 	if (k == "closeeintr") { g_kernel.close_eintr += (int)op.a.geti("n", 1); probe("fault:close_interrupted"); return; }
 	if (k == "timerfail") { g_kernel.timerfd_create_errs.push_back((int)op.a.geti("errno", EMFILE)); return; }
 	if (k == "epolladdfail") { for (int i = 0; i < (int)op.a.geti("skip", 0); i++) g_kernel.epoll_add_errs.push_back(0); g_kernel.epoll_add_errs.push_back((int)op.a.geti("errno", ENOSPC)); return; }
